@@ -128,13 +128,8 @@ CbFails(st, prog, res, i) ==
 (***************************************************************************)
 (* verify                                                                  *)
 (***************************************************************************)
-NoParse == [status |-> "any", alg |-> "none", spelling |-> NONE, hdr |-> EmptyMap, clm |-> EmptyMap, sigEmpty |-> TRUE]
-ParseTok(td) == CASE td.src = "forge" -> ParseForge(td)
-                  [] td.src = "slot" -> ParseSlot(toks[td.slot])
-                  [] OTHER -> NoParse
-SigOK(td, item) == CASE td.src = "forge" -> item.id # -1 /\ SigOKForge(td, item.kd)
-                     [] td.src = "slot" -> SigOKSlot(toks[td.slot], item)
-                     [] OTHER -> FALSE
+ParseTok(td) == ParseTokIn(toks, td)
+SigOK(td, item) == SigOKIn(toks, td, item)
 
 VerifyFails(e) ==
   LET ck == checkers[e.c]
@@ -166,16 +161,25 @@ VerifyFails(e) ==
 (***************************************************************************)
 (* generate                                                                *)
 (***************************************************************************)
+\* normalise an observed generate result (top-level event or its "fresh" twin)
+GObs(x) ==
+  IF x.ret = "tok"
+  THEN [ret |-> "tok", wf |-> (x.dots = 2 /\ x.pad = 0 /\ x.urlsafe = 1 /\ x.canon = 1),
+        talg |-> x.talg, hdr |-> MapOfList(x.thdr), clm |-> MapOfList(x.tclm),
+        sigEmpty |-> (x.tsiglen = 0), validby |-> Range(x.validby)]
+  ELSE NullG
+
 GenerateFails(e) ==
   LET b == builders[e.b]
       ref == GenRef(b, now, rings, ops)
+      g == GObs(e)
   IN
-  (IF On("C10") THEN F(P_C10(b, now, rings, ops, e, MapOfList(e.hdr_after), MapOfList(e.clm_after)), "C10.token")
-                     \cup F(P_GenSig(b, now, rings, ops, e), "C10.sig") ELSE {})
-  \cup (IF On("C03") THEN F(P_C03g(b, now, rings, e), "C03.generate") ELSE {})
-  \cup (IF On("C02") THEN F(P_C02g(b, now, rings, e), "C02.generate") ELSE {})
-  \cup (IF On("C09") THEN F(P_C09g(b, now, rings, ops, e), "C09.generate") ELSE {})
-  \cup (IF On("C05") THEN F(P_GenSig(b, now, rings, ops, e), "C05.sig") ELSE {})
+  (IF On("C10") THEN F(P_C10(b, now, rings, ops, g, MapOfList(e.hdr_after), MapOfList(e.clm_after)), "C10.token")
+                     \cup F(P_GenSig(b, now, rings, ops, g), "C10.sig") ELSE {})
+  \cup (IF On("C03") THEN F(P_C03g(b, now, rings, g), "C03.generate") ELSE {})
+  \cup (IF On("C02") THEN F(P_C02g(b, now, rings, g), "C02.generate") ELSE {})
+  \cup (IF On("C09") THEN F(P_C09g(b, now, rings, ops, g), "C09.generate") ELSE {})
+  \cup (IF On("C05") THEN F(P_GenSig(b, now, rings, ops, g), "C05.sig") ELSE {})
   \cup (IF On("C14") THEN F(P_C14g(e.ret, e.err, e.msg), "C14.generate") ELSE {})
   \cup (IF On("C13") /\ Has(e, "fresh") THEN
           F(e.ret = e.fresh.ret, "C13.generate.ret")
@@ -278,7 +282,7 @@ Apply(e) ==
               /\ UNCHANGED <<now, ops, rings, checkers, toks, nextId>>
          ELSE BMap(e.b, e.k, e.which, e.v)
     [] e.e = "Verify" -> Verify(e.c, e.err, e.msg)
-    [] e.e = "Generate" -> Generate(e.b, e.slot, e, e.err, e.msg)
+    [] e.e = "Generate" -> Generate(e.b, e.slot, GObs(e), e.err, e.msg)
     [] e.e = "CErrClear" -> CErrClear(e.c)
     [] e.e = "BErrClear" -> BErrClear(e.b)
     [] OTHER -> UNCHANGED vars
@@ -287,7 +291,7 @@ Reset ==
   /\ now' = <<BIAS, 405, 1306880>> /\ ops' = "openssl"
   /\ rings' = [r \in RingIds |-> NoRing]
   /\ builders' = [b \in ObjIds |-> Dead] /\ checkers' = [c \in ObjIds |-> Dead]
-  /\ toks' = [s \in SlotIds |-> [ret |-> "null"]] /\ nextId' = 0
+  /\ toks' = [s \in SlotIds |-> NullG] /\ nextId' = 0
 
 TInit ==
   /\ Init
